@@ -278,7 +278,9 @@ func main() {
 		}
 	}
 	explore.Main(&explore.Config{
-		Property: "C03",
+		Property:    "C03",
+		Extra:       kaAll,
+		ExtraReplay: kaReplay,
 		Scenarios: []*explore.Scenario{
 			scenario("expiry", 2, 2, "quick", expiry),
 			scenario("resign", 2, 2, "quick", resign),
@@ -293,7 +295,7 @@ func main() {
 		Assumptions: []string{
 			"ground truth is the fake etcd (conformance-checked): a leader record write while a record exists, or a leader-guarded key changed by a member that does not own the record at the commit instant, is a violation",
 			"a served request is a violation only if the member owned the leader record at no instant between invocation and return (a clock reading taken just before an expiry is inherent to lease-based leadership)",
-			"the keep-alive loop is not run: a lease lives until virtual time passes its TTL; etcd never expires a lease before the holder's local deadline",
+			"schedule scenarios: the keep-alive loop is not run, a lease lives until virtual time passes its TTL; the keep-alive loop is covered by the keep-alive scope: real lease.KeepAlive with its worker goroutines and ticker free-running, the fate of the grant reply and of each of the first 2 (thorough: 3) keep-alive requests enumerated (answered, answered late, held past the next request, refused, reply lost), then contact cut and virtual time stepped past every deadline while a second member campaigns",
 		},
 	})
 }
